@@ -125,6 +125,12 @@ CHECKS = {
             "after close every client sees EOFError promptly, hooks ran once, no descriptor, table entry or server thread is left; a connect racing close() is explored over schedules with <= 2 (quick) / 3 (thorough) preemptions at system-call granularity.",
             "SimOS models loopback sockets/poll/queue at the level rpyc uses them (kernel-conformance selftest); the forking server is NOT covered: fork, descriptor inheritance and SIGCHLD are not modelled",
             "E1+E3+E4", "DESIGN.md#c17"),
+    "C16": ("model_checking",
+            "enumeration of hostile client scripts x server kinds x authentication x good-client counts on the real threaded and thread-pool servers over a simulated socket layer, plus exhaustive single-deviation schedule exploration (system-call and line granularity in the connection set-up code)",
+            "Every hostile script (malformed/garbage/absurd/corrupt-zlib packets, a valid request cut at every byte offset, disconnects, failed and stalled authentication, stalls, bursts) is played against ThreadedServer and ThreadPoolServer with and without an authenticator while 1-2 good clients work; "
+            "oracle: good clients' results, a NEW client is served afterwards, per-connection service instance/state/references/credentials, identifiers of one connection refused on another. All schedules with one deviation from the default are explored for representative scripts and for two clients authenticating concurrently.",
+            "hostile bytes are a structured alphabet; pool sized above the number of never-finishing clients; forking server NOT covered (no process model); one recorded known finding (pool + client silent during authentication)",
+            "E1+E4+E5", "DESIGN.md#c16"),
 }
 
 NOT_APPLICABLE = {}
